@@ -13,9 +13,27 @@ from .shrink import shrink_case
 PID = "C04"
 
 
-def impl_one(g, lab):
+def impl_one(g, lab, reuse=0, stale=False):
     from pywhy_graphs.algorithms.cpdag import dag_to_cpdag
-    G = U.build_digraph(g, lab)
+    if reuse and len(g["D"]) > reuse:
+        # the same DiGraph object is converted, extended by edges, and converted again: the DAG handed to
+        # the second call carries whatever the first call left on it
+        g0 = dict(g)
+        g0["D"] = g["D"][:-reuse]
+        G = U.build_digraph(g0, lab)
+        try:
+            dag_to_cpdag(G)
+        except Exception:
+            pass
+        for a, b in g["D"][-reuse:]:
+            G.add_edge(lab(a), lab(b))
+    else:
+        G = U.build_digraph(g, lab)
+    if stale:
+        # a DAG whose edges already carry 'order' / 'label' attributes (e.g. from an earlier call) is a DAG
+        for i, (a, b) in enumerate(G.edges):
+            G[a][b]["order"] = (7 * i + 3) % (G.number_of_edges() + 1)
+            G[a][b]["label"] = ("compelled", "reversible", "unknown")[i % 3]
     topo = U.topo_indices(G, lab)
     try:
         cp = dag_to_cpdag(G)
@@ -28,7 +46,7 @@ def impl_one(g, lab):
 
 def impl(case):
     lab = C.Labels(case.get("fam", "int"))
-    out = impl_one(case["g"], lab)
+    out = impl_one(case["g"], lab, reuse=case.get("reuse", 0), stale=case.get("stale", False))
     if "g2" in case:
         out["second"] = impl_one(case["g2"], C.Labels(case.get("fam", "int")))
     return out
@@ -117,6 +135,11 @@ def gen_cases(ctx):
                 if (r == 1 or n == 5) and n > 1 and k % 2 == 0:
                     c["g2"] = variant(rng, g)
                 yield c
+            if n >= 3 and len(g["D"]) >= 2 and k % 3 == 0:
+                # convert, add edges to the same object, convert again / edges that already carry attributes
+                gs = C.shuffled_graph(rng, g)
+                yield {"g": gs, "src": "reuse%d" % n, "fam": "int", "reuse": rng.choice((1, 2))}
+                yield {"g": gs, "src": "stale%d" % n, "fam": "int", "stale": True}
     if tier == "quick":
         # a slice of the 5-node DAGs every run
         five = [g for i, g in enumerate(U.all_dags(5)) if i % 12 == ctx["seed"] % 12]
@@ -132,6 +155,10 @@ def gen_cases(ctx):
         c = {"g": C.shuffled_graph(rng, g), "src": "random", "fam": fams[i % len(fams)]}
         if i % 2 == 0:
             c["g2"] = variant(rng, g)
+        elif i % 5 == 1 and len(g["D"]) >= 3:
+            c["reuse"] = rng.choice((1, 2, 3))
+        elif i % 5 == 3:
+            c["stale"] = True
         yield c
 
 
